@@ -184,13 +184,18 @@ def apply_unified_diff(patch_text, read_file):
             cur = path
             src = read_file(cur)
             if src is None:
+                # a file added by the patch ("--- /dev/null")
+                if k > 0 and lines[k - 1].startswith("--- /dev/null"):
+                    out[cur] = {"old": [], "new": [], "pos": 0, "added": True}
+                    k += 1
+                    continue
                 return None
             out[cur] = {"old": src.split("\n"), "new": [], "pos": 0}
             k += 1
             continue
         mobj = re.match(r"^@@ -(\d+)(?:,(\d+))? \+(\d+)(?:,(\d+))? @@", ln)
         if mobj and cur is not None:
-            start = int(mobj.group(1)) - 1
+            start = max(int(mobj.group(1)) - 1, 0)
             st = out[cur]
             if start < st["pos"]:
                 return None
@@ -220,7 +225,7 @@ def apply_unified_diff(patch_text, read_file):
     res = {}
     for path, st in out.items():
         st["new"] += st["old"][st["pos"]:]
-        res[path] = "\n".join(st["new"])
+        res[path] = "\n".join(st["new"]) + ("\n" if st.get("added") else "")
     return res
 
 
@@ -278,11 +283,17 @@ def _run_refactor(args):
         return dict(id="refactor-" + rid, status="skipped", detail="variant does not parse: %s" % e, expect="silent", note="refactoring " + rid)
     fired, err = [], None
     try:
+        from .engine import unresolved_guard
         ctx = Ctx(program=prog, tier="quick")
+        allres = []
         for rule in props.rules_for(prop):
             res = rule(ctx)
             for r in (res if isinstance(res, list) else [res]):
+                allres.append(r)
                 fired += ["%s %s" % (f.rule, f.construct) for f in r.findings]
+        g = unresolved_guard(ctx, allres)
+        if g:
+            err, fired = g, []
     except AnalysisError as e:
         err = str(e)
     except Exception as e:
